@@ -444,6 +444,14 @@ impl TransactionCoordinator {
         }
     }
 
+    /// Whether the transaction is still in progress (neither committed nor aborted, e.g. by VACUUM).
+    pub fn is_transaction_active(&self, txid: TransactionId) -> bool {
+        self.transactions
+            .read()
+            .get(&txid)
+            .is_some_and(|entry| entry.is_active())
+    }
+
     /// Abort a transaction
     pub fn abort(&self, txid: TransactionId) -> TransactionResult<()> {
         {
@@ -693,6 +701,13 @@ impl TransactionHandle {
 
     pub fn can_commit(&self) -> bool {
         self.commit_handle.is_some()
+    }
+
+    /// Whether the transaction behind this handle is still in progress.
+    pub fn is_active(&self) -> bool {
+        self.commit_handle
+            .as_ref()
+            .is_some_and(|h| h.coordinator.is_transaction_active(self.id))
     }
 
     pub fn commit(&mut self) -> TransactionResult<()> {
